@@ -2,8 +2,8 @@
    Statements only; proofs in Proofs/C08.v (codecs) and Proofs/C08_lines.v (lines, ids, alignment).
    The definitions are those of Model/C08.v, the same ones the correspondence evaluates on the
    numbers the implementation produced (harness/props/c08.py). *)
-From PV Require Import Lib.Base Lib.Round Model.C12 Model.C08 Model.C08_attrs Model.C08_sigs Model.C08_glue Gen.C08_Vocab
-  Proofs.C08 Proofs.C08_lines Proofs.C08_perf Proofs.C08_attrs Proofs.C08_sigs Proofs.C08_glue.
+From PV Require Import Lib.Base Lib.Round Model.C12 Model.C08 Model.C08_attrs Model.C08_sigs Model.C08_glue Model.C08_Hist Gen.C08_Vocab
+  Proofs.C08 Proofs.C08_lines Proofs.C08_perf Proofs.C08_attrs Proofs.C08_sigs Proofs.C08_glue Proofs.C08_hist.
 From Coq Require Import QArith Qabs Sorting.Sorted Sorting.Permutation String.
 #[local] Open Scope Z_scope.
 
@@ -470,3 +470,49 @@ Example k1_nontrivial :
    save_defined [(1, true); (2, true); (3, false)] [10; 11; 12]
                 [EMatch 1 10; EInsertion 11; EMatch 3 12]) = (false, true).
 Proof. vm_compute. reflexivity. Qed.
+
+(* ------------------------------------------------------------------ *)
+(* state carried between calls (Model/C08_Hist.v; tied by the streams phist / mhist of the history run) *)
+
+(* for EVERY history of edits of a performed part (times, velocity, notes replaced / appended / deleted, the
+   part's clock attributes changed) and saves with any clocks, every save writes the played-note fields of
+   the data the notes hold at that moment ([sobs] never sees stored ticks, clock attributes or an earlier
+   result) *)
+Theorem history_current_state : forall ops s, hobs s ops = sobs (map data_of (h_notes s)) ops.
+Proof. exact history_current_state_lemma. Qed.
+Print Assumptions history_current_state.
+
+Theorem history_independent_of_carried_state : forall ops s s',
+  map data_of (h_notes s) = map data_of (h_notes s') -> hobs s ops = hobs s' ops.
+Proof. exact history_independent_of_carried_state_lemma. Qed.
+Print Assumptions history_independent_of_carried_state.
+
+(* not vacuous: an exporter that hands out the result of the last save again (same clock, same number of
+   notes), and one that writes the ticks stored on a note when the part's clock equals the clock asked, are
+   both told apart by a three-step history: save, move a note, save again *)
+Example history_memo_refuted :
+  let s := mkH [mkP 60 64 (1#2) (1#1) None] (480, 500000) None in
+  let ops := [HSave 480 500000; HSetTimes 0 (3#4) (5#4); HSave 480 500000] in
+  (hobs_with hstep_memo s ops <> sobs (map data_of (h_notes s)) ops) /\
+  hobs s ops = [[mkF 60 64 480 960]; [mkF 60 64 720 1200]].
+Proof. split; [vm_compute; discriminate | vm_compute; reflexivity]. Qed.
+
+Example history_stored_ticks_refuted :
+  let s := mkH [mkP 60 64 (1#2) (1#1) (Some (480, 960))] (480, 500000) None in
+  let ops := [HSave 480 500000; HSetTimes 0 (3#4) (5#4); HSave 480 500000; HSave 960 500000] in
+  (hobs_with hstep_stored s ops <> sobs (map data_of (h_notes s)) ops) /\
+  hobs s ops = [[mkF 60 64 480 960]; [mkF 60 64 720 1200]; [mkF 60 64 1440 2400]].
+Proof. split; [vm_compute; discriminate | vm_compute; reflexivity]. Qed.
+
+(* for EVERY history of edits of MatchFile.lines (a line deleted, validate_match_ids run again) the
+   alignment and the performed-note ids derived afterwards are those of the lines held at that moment *)
+Theorem mhistory_current_lines : forall ops s, mobs mstep s ops = mspec (m_lines s) ops.
+Proof. exact mhistory_current_lines_lemma. Qed.
+Print Assumptions mhistory_current_lines.
+
+Example mhistory_memo_refuted :
+  let s := mkMS [mkL KMatch (Some 1) (Some 10); mkL KInsertion None (Some 11)] None in
+  let ops := [MAlign; MDrop 1; MAlign; MNotes] in
+  (mobs mstep_memo s ops <> mspec (m_lines s) ops) /\
+  mobs mstep s ops = [OAlign [EMatch 1 10; EInsertion 11]; OAlign [EMatch 1 10]; ONotes [10]].
+Proof. split; [vm_compute; discriminate | vm_compute; reflexivity]. Qed.
